@@ -1,6 +1,8 @@
-(* Invariants of the limit-bid model (Model/LimitBid.v): recorded total = sum of deposits, custody
-   covers the deposits, every deposit >= 0 -- for every history that stays outside the two
-   known-finding classes; a withdraw / cancel pays at most the depositor's own deposit. *)
+(* Invariants of the limit-bid model (Model/LimitBid.v, the repaired code): recorded total = sum of
+   deposits and every deposit >= 0 in EVERY reachable state (no hypothesis on the history);
+   custody covers the deposits for every history of messages by bidder accounts and automatic
+   fills whose Dutch settlement disburses no more than the records are charged; a withdraw /
+   cancel pays at most the depositor's own deposit, in the deposited denom. *)
 From Comdex Require Import Lib.Base Lib.DecArith Lib.DecFacts Lib.FLedger Model.LimitBid.
 From Coq Require Import ZifyBool.
 
@@ -62,6 +64,13 @@ Section AssocFacts.
     induction 1 as [|[k' v'] r Hx Hr IH]; cbn [aget]; [discriminate|].
     destruct (eqb k k'); [intros E; injection E as <-; eauto|exact IH].
   Qed.
+
+  Lemma aget_Forall_key (Q : K * V -> Prop) k v l : Forall Q l -> aget eqb k l = Some v -> Q (k, v).
+  Proof.
+    induction 1 as [|[k' v'] r Hx Hr IH]; cbn [aget]; [discriminate|].
+    destruct (eqb k k') eqn:E; [|exact IH].
+    apply eqb_ok in E. subst k'. intros E; injection E as <-. exact Hx.
+  Qed.
 End AssocFacts.
 
 Lemma keq_ok a b : keq a b = true <-> a = b.
@@ -93,38 +102,40 @@ Qed.
 Definition fee_wf (c : cfg) : Prop :=
   0 <= closing_fee c <= P18 /\ 0 <= withdrawal_fee c <= P18.
 
-(* ---------------- the invariant ---------------- *)
+(* ---------------- the invariants ---------------- *)
 Definition nonneg (kr : key * lrec) : Prop := 0 <= r_amt (snd kr).
+(* a record holds the denom of its market's debt asset ("in the deposited asset") *)
+Definition denom_ok (c : cfg) (kr : key * lrec) : Prop := denom_of c (k_debt (fst kr)) = Some (r_denom (snd kr)).
 
-Definition LInv (l0 : ledger) (s : lstate) : Prop :=
-  Forall nonneg (recs s) /\
-  (forall m, tot m s = sum_market m s) /\
-  (forall d, sum_denom d s <= led s MOD d - l0 MOD d).
+(* bookkeeping: holds in every reachable state, whatever the history *)
+Definition LInvB (c : cfg) (s : lstate) : Prop :=
+  Forall nonneg (recs s) /\ Forall (denom_ok c) (recs s) /\ (forall m, tot m s = sum_market m s).
 
-(* the inputs of a step that the theorems are about: a bidder account, outside both
-   known-finding classes, and (automatic fill) the Dutch settlement disburses no more of the
-   module's debt coins than the limit record is charged -- C10's concern *)
+(* custody, relative to what the module held when the history started *)
+Definition LInvC (l0 : ledger) (s : lstate) : Prop :=
+  forall d, sum_denom d s <= led s MOD d - l0 MOD d.
+
+Definition LInv (c : cfg) (l0 : ledger) (s : lstate) : Prop := LInvB c s /\ LInvC l0 s.
+
+(* the environment of a step that the custody theorem is about: messages are sent by bidder
+   accounts (not by the module account itself), and the Dutch settlement of an automatic fill
+   disburses no more of the module's debt coins than the limit records are charged -- C10's concern *)
 Definition who_of (o : lop) : Z :=
   match o with
   | Deposit w _ _ _ _ _ | Cancel w _ _ _ | Withdraw w _ _ _ _ _ => w
-  | AutoFill k _ _ _ => k_who k
+  | AutoFill _ _ _ _ _ _ _ => 0
   end.
 
 Definition fill_env (s : lstate) (o : lop) : Prop :=
   match o with
-  | AutoFill k D spent _ =>
-      match aget keq k (recs s) with
-      | Some r => spent <= (if r_amt r >=? D then D else r_amt r)
-      | None => True
-      end
+  | AutoFill debt coll prem D whos spent _ => spent <= snd (fill_recs debt coll prem D whos s)
   | _ => True
   end.
 
-Definition clean (s : lstate) (o : lop) : Prop :=
-  0 <= who_of o /\ kf_C11_1 s o = false /\ kf_C11_2 s o = false /\ fill_env s o.
+Definition env_ok (s : lstate) (o : lop) : Prop := 0 <= who_of o /\ fill_env s o.
 
-Lemma linv_empty l0 : LInv l0 (lempty l0).
-Proof. unfold LInv, lempty, tot, sum_market, sum_denom; cbn. repeat split; auto; lia. Qed.
+Lemma linv_empty c l0 : LInv c l0 (lempty l0).
+Proof. unfold LInv, LInvB, LInvC, lempty, tot, sum_market, sum_denom; cbn. repeat split; auto; lia. Qed.
 
 Ltac eqb_cases :=
   repeat match goal with
@@ -136,136 +147,292 @@ Lemma tot_aset m' m v s r l :
   tot m' (mkL r (aset meq m v (totals s)) l) = if meq m' m then v else tot m' s.
 Proof. unfold tot; cbn [totals]. rewrite (aget_aset meq meq_ok). destruct (meq m' m); reflexivity. Qed.
 
-(* CancelLimitAuctionBid keeps the invariant and pays at most the own deposit *)
-Lemma cancel_spec c l0 s who coll debt prem s' :
-  fee_wf c -> LInv l0 s -> 0 <= who -> cancel c s who coll debt prem = Ok s' ->
-  LInv l0 s' /\
-  exists r fee, aget keq (mkK debt coll prem who) (recs s) = Some r /\ 0 <= fee <= r_amt r /\
-    (forall acct d, acct <> MOD ->
-       led s' acct d = led s acct d + (if (acct =? who) && (d =? r_denom r) then r_amt r - fee else 0)) /\
-    tot (debt, coll) s' = tot (debt, coll) s - r_amt r.
+(* a record of market (debt, coll) is written / deleted and the market total moves by the same amount *)
+Lemma inv_tot_set s debt coll prem who r' v l' :
+  (forall m, tot m s = sum_market m s) ->
+  v = tot (debt, coll) s + r_amt r'
+      - (match aget keq (mkK debt coll prem who) (recs s) with Some r0 => r_amt r0 | None => 0 end) ->
+  forall m, let s' := mkL (aset keq (mkK debt coll prem who) r' (recs s)) (aset meq (debt, coll) v (totals s)) l' in
+            tot m s' = sum_market m s'.
 Proof.
-  intros [Hcf _] (Hnn & Htot & Hcus) Hw. unfold cancel, lift.
-  destruct (prem <? 0); [discriminate|].
-  set (k := mkK debt coll prem who).
-  destruct (aget keq k (recs s)) as [r|] eqn:Hg; [|discriminate].
-  destruct (aget_Forall keq nonneg k r (recs s) Hnn Hg) as [k' Hr]. unfold nonneg in Hr; cbn in Hr.
-  assert (Hledger : forall fee l', 0 <= fee <= r_amt r ->
-            (forall a x, l' a x = led s a x - (if (a =? MOD) && (x =? r_denom r) then r_amt r - fee else 0)
-                                         + (if (a =? who) && (x =? r_denom r) then r_amt r - fee else 0)) ->
-            LInv l0 (mkL (adel keq k (recs s)) (aset meq (debt, coll) (tot (debt, coll) s - r_amt r) (totals s)) l') /\
-            exists r0 fee0, Some r = Some r0 /\ 0 <= fee0 <= r_amt r0 /\
-              (forall acct d, acct <> MOD -> l' acct d = led s acct d + (if (acct =? who) && (d =? r_denom r0) then r_amt r0 - fee0 else 0)) /\
-              tot (debt, coll) (mkL (adel keq k (recs s)) (aset meq (debt, coll) (tot (debt, coll) s - r_amt r) (totals s)) l')
-                = tot (debt, coll) s - r_amt r0).
-  { intros fee l' Hfee Hl'. split.
-    - split; [apply Forall_adel; exact Hnn|]. split.
-      + intros m. rewrite tot_aset. unfold sum_market; cbn [recs]. rewrite (asum_adel keq keq_ok), Hg.
-        fold (sum_market m s). rewrite <- Htot. change (market k) with (debt, coll). rewrite (meq_sym m).
-        destruct (meq (debt, coll) m) eqn:E; [apply meq_ok in E; subst m|]; lia.
-      + intros d. unfold sum_denom; cbn [recs led]. rewrite (asum_adel keq keq_ok), Hg. fold (sum_denom d s).
-        specialize (Hcus d). rewrite Hl'. unfold MOD in *. eqb_cases; lia.
-    - exists r, fee. split; [reflexivity|]. split; [exact Hfee|]. split.
-      + intros acct d Ha. rewrite Hl'. unfold MOD in *. eqb_cases; lia.
-      + rewrite tot_aset. rewrite (proj2 (meq_ok _ _) eq_refl). reflexivity. }
-  destruct (Z.gtb_spec (r_amt r) 0) as [Hpos|Hz].
-  - destruct (fee_of (closing_fee c) (r_amt r)) as [fee|] eqn:Hf; [|discriminate].
-    pose proof (fee_bounds _ _ _ Hf Hcf ltac:(lia)) as Hfee.
-    destruct (send (led s) MOD who (r_denom r) (r_amt r - fee)) as [l'| |] eqn:S; try discriminate.
-    apply send_spec in S. destruct S as (_ & _ & _ & S).
-    intros E. injection E as <-. exact (Hledger fee l' Hfee S).
-  - intros E. injection E as <-. assert (Hz0 : r_amt r = 0) by lia.
-    refine (Hledger 0 (led s) ltac:(lia) _). intros a x. eqb_cases; lia.
+  intros Htot Hv m s'. unfold s'. rewrite tot_aset. unfold sum_market; cbn [recs].
+  rewrite (asum_aset keq keq_ok). fold (sum_market m s). rewrite <- Htot.
+  change (market (mkK debt coll prem who)) with (debt, coll). rewrite (meq_sym m).
+  destruct (aget keq (mkK debt coll prem who) (recs s)) as [r0|];
+    (destruct (meq (debt, coll) m) eqn:E; [apply meq_ok in E; subst m|]); lia.
 Qed.
 
-Lemma lstep_inv c l0 s o s' :
-  fee_wf c -> LInv l0 s -> clean s o -> lstep c s o = Ok s' -> LInv l0 s'.
+Lemma inv_tot_del s debt coll prem who v l' :
+  (forall m, tot m s = sum_market m s) ->
+  v = tot (debt, coll) s
+      - (match aget keq (mkK debt coll prem who) (recs s) with Some r0 => r_amt r0 | None => 0 end) ->
+  forall m, let s' := mkL (adel keq (mkK debt coll prem who) (recs s)) (aset meq (debt, coll) v (totals s)) l' in
+            tot m s' = sum_market m s'.
 Proof.
-  intros Hfw HI (Hw & K1 & K2 & Hfe). pose proof HI as (Hnn & Htot & Hcus).
-  destruct o as [who coll debt prem denom amt|who coll debt prem|who coll debt prem denom amt|k D spent ok];
-    cbn [lstep who_of kf_C11_1 kf_C11_2 fill_env] in *.
+  intros Htot Hv m s'. unfold s'. rewrite tot_aset. unfold sum_market; cbn [recs].
+  rewrite (asum_adel keq keq_ok). fold (sum_market m s). rewrite <- Htot.
+  change (market (mkK debt coll prem who)) with (debt, coll). rewrite (meq_sym m).
+  destruct (aget keq (mkK debt coll prem who) (recs s)) as [r0|];
+    (destruct (meq (debt, coll) m) eqn:E; [apply meq_ok in E; subst m|]); lia.
+Qed.
+
+Lemma sum_denom_set d k r' rs ts l' s :
+  rs = aset keq k r' (recs s) ->
+  sum_denom d (mkL rs ts l') =
+    sum_denom d s
+    - (match aget keq k (recs s) with Some r0 => if r_denom r0 =? d then r_amt r0 else 0 | None => 0 end)
+    + (if r_denom r' =? d then r_amt r' else 0).
+Proof. intros ->. unfold sum_denom; cbn [recs]. rewrite (asum_aset keq keq_ok). reflexivity. Qed.
+
+Lemma sum_denom_del d k rs ts l' s :
+  rs = adel keq k (recs s) ->
+  sum_denom d (mkL rs ts l') =
+    sum_denom d s
+    - (match aget keq k (recs s) with Some r0 => if r_denom r0 =? d then r_amt r0 else 0 | None => 0 end).
+Proof. intros ->. unfold sum_denom; cbn [recs]. rewrite (asum_adel keq keq_ok). reflexivity. Qed.
+
+(* ---------------- CancelLimitAuctionBid ---------------- *)
+(* what a successful cancel does: the record is deleted, the total drops by its amount, [paid]
+   moves from the module to the bidder *)
+Lemma cancel_shape c s who coll debt prem s' :
+  cancel c s who coll debt prem = Ok s' ->
+  exists r paid l', aget keq (mkK debt coll prem who) (recs s) = Some r /\
+    s' = mkL (adel keq (mkK debt coll prem who) (recs s))
+             (aset meq (debt, coll) (tot (debt, coll) s - r_amt r) (totals s)) l' /\
+    0 <= paid /\
+    (forall a x, l' a x = led s a x - (if (a =? MOD) && (x =? r_denom r) then paid else 0)
+                                   + (if (a =? who) && (x =? r_denom r) then paid else 0)) /\
+    ((paid = 0 /\ r_amt r <= 0) \/
+     exists fee, fee_of (closing_fee c) (r_amt r) = Some fee /\ paid = r_amt r - fee /\ 0 < r_amt r).
+Proof.
+  unfold cancel, lift. destruct (prem <? 0); [discriminate|].
+  set (k := mkK debt coll prem who).
+  destruct (aget keq k (recs s)) as [r|] eqn:Hg; [|discriminate].
+  destruct (Z.gtb_spec (r_amt r) 0) as [Hpos|Hz].
+  - destruct (fee_of (closing_fee c) (r_amt r)) as [fee|] eqn:Hf; [|discriminate].
+    destruct (send (led s) MOD who (r_denom r) (r_amt r - fee)) as [l'| |] eqn:S; try discriminate.
+    apply send_spec in S. destruct S as (S0 & _ & _ & S).
+    intros E. injection E as <-. exists r, (r_amt r - fee), l'. repeat split; auto.
+    right. exists fee. auto.
+  - intros E. injection E as <-. exists r, 0, (led s). repeat split; auto; try lia.
+    intros a x. destruct ((a =? MOD) && (x =? r_denom r)), ((a =? who) && (x =? r_denom r)); lia.
+Qed.
+
+Lemma cancel_invB c s who coll debt prem s' :
+  LInvB c s -> cancel c s who coll debt prem = Ok s' -> LInvB c s'.
+Proof.
+  intros (Hnn & Hdn & Htot) C. destruct (cancel_shape _ _ _ _ _ _ _ C) as (r & paid & l' & Hg & -> & _).
+  split; [apply Forall_adel; exact Hnn|]. split; [apply Forall_adel; exact Hdn|].
+  apply inv_tot_del; [exact Htot|]. rewrite Hg. reflexivity.
+Qed.
+
+(* with a well-formed fee the bidder is paid its own deposit minus the fee, nobody else anything *)
+Lemma cancel_spec c s who coll debt prem s' :
+  fee_wf c -> LInvB c s -> cancel c s who coll debt prem = Ok s' ->
+  exists r fee, aget keq (mkK debt coll prem who) (recs s) = Some r /\ 0 <= fee <= r_amt r /\
+    (forall a x, led s' a x = led s a x - (if (a =? MOD) && (x =? r_denom r) then r_amt r - fee else 0)
+                                       + (if (a =? who) && (x =? r_denom r) then r_amt r - fee else 0)) /\
+    sum_denom (r_denom r) s' = sum_denom (r_denom r) s - r_amt r /\
+    (forall d, d <> r_denom r -> sum_denom d s' = sum_denom d s) /\
+    tot (debt, coll) s' = tot (debt, coll) s - r_amt r.
+Proof.
+  intros [Hcf _] (Hnn & _ & _) C.
+  destruct (cancel_shape _ _ _ _ _ _ _ C) as (r & paid & l' & Hg & -> & Hp & Hl & Hfee).
+  pose proof (aget_Forall_key keq keq_ok nonneg _ _ _ Hnn Hg) as Hr. unfold nonneg in Hr; cbn in Hr.
+  assert (Hex : exists fee, 0 <= fee <= r_amt r /\ paid = r_amt r - fee).
+  { destruct Hfee as [(-> & Hz)|(fee & Hf & -> & Hpos)].
+    - exists (r_amt r). lia.
+    - exists fee. pose proof (fee_bounds _ _ _ Hf Hcf ltac:(lia)). lia. }
+  destruct Hex as (fee & Hfb & ->). exists r, fee. split; [exact Hg|]. split; [exact Hfb|].
+  split; [exact Hl|]. split; [|split].
+  - rewrite (sum_denom_del _ _ _ _ _ s eq_refl), Hg, Z.eqb_refl. reflexivity.
+  - intros d Hd. rewrite (sum_denom_del _ _ _ _ _ s eq_refl), Hg.
+    destruct (Z.eqb_spec (r_denom r) d); [congruence|lia].
+  - rewrite tot_aset, (proj2 (meq_ok _ _) eq_refl). reflexivity.
+Qed.
+
+Lemma cancel_invC c l0 s who coll debt prem s' :
+  fee_wf c -> LInvB c s -> LInvC l0 s -> 0 <= who -> cancel c s who coll debt prem = Ok s' -> LInvC l0 s'.
+Proof.
+  intros Hfw HB HC Hw C d.
+  destruct (cancel_spec _ _ _ _ _ _ _ Hfw HB C) as (r & fee & _ & Hfee & Hl & Hs1 & Hs2 & _).
+  specialize (HC d). rewrite Hl. unfold MOD in *.
+  destruct (Z.eqb_spec d (r_denom r)) as [->|Hd].
+  - rewrite Hs1. eqb_cases; lia.
+  - rewrite (Hs2 d Hd). eqb_cases; lia.
+Qed.
+
+(* ---------------- the automatic fill ---------------- *)
+Definition denom_is (c : cfg) (asset d : Z) : bool :=
+  match denom_of c asset with Some dd => dd =? d | None => false end.
+
+Lemma fill_recs_spec c debt coll prem D whos : forall s s' ch,
+  fill_recs debt coll prem D whos s = (s', ch) -> LInvB c s ->
+  LInvB c s' /\ led s' = led s /\
+  forall d, sum_denom d s' = sum_denom d s - (if denom_is c debt d then ch else 0).
+Proof.
+  induction whos as [|w rest IH]; intros s s' ch; cbn [fill_recs].
+  - intros E HB. injection E as <- <-. split; [exact HB|]. split; [reflexivity|]. intros d. destruct (denom_is c debt d); lia.
+  - set (k := mkK debt coll prem w).
+    destruct (aget keq k (recs s)) as [r|] eqn:Hg; [|apply IH].
+    intros E HB. pose proof HB as (Hnn & Hdn & Htot).
+    pose proof (aget_Forall_key keq keq_ok nonneg _ _ _ Hnn Hg) as Hr. unfold nonneg in Hr; cbn in Hr.
+    pose proof (aget_Forall_key keq keq_ok (denom_ok c) _ _ _ Hdn Hg) as Hd. unfold denom_ok in Hd; cbn in Hd.
+    assert (Hdi : forall d, denom_is c debt d = (r_denom r =? d)) by (intros d; unfold denom_is; rewrite Hd; reflexivity).
+    destruct (Z.geb_spec (r_amt r) D) as [Hge|Hlt].
+    + destruct (Z.eqb_spec (r_amt r) D) as [He|Hne].
+      * injection E as <- <-. split; [|split; [reflexivity|]].
+        -- split; [apply Forall_adel; exact Hnn|]. split; [apply Forall_adel; exact Hdn|].
+           apply inv_tot_del; [exact Htot|]. fold k. rewrite Hg. lia.
+        -- intros d. rewrite (sum_denom_del _ k _ _ _ s eq_refl), Hg, Hdi. destruct (r_denom r =? d); lia.
+      * match type of E with (let '(_, _) := fill_recs _ _ _ _ _ ?x in _) = _ => set (s1 := x) in * end.
+        destruct (fill_recs debt coll prem D rest s1) as [s2 ch2] eqn:E2. injection E as <- <-.
+        assert (HB1 : LInvB c s1).
+        { split; [apply Forall_aset; [unfold nonneg; cbn; lia|exact Hnn]|].
+          split; [apply Forall_aset; [exact Hd|exact Hdn]|].
+          apply inv_tot_set; [exact Htot|]. fold k. rewrite Hg. cbn [r_amt]. lia. }
+        destruct (IH s1 s2 ch2 E2 HB1) as (HB2 & Hl2 & Hs2). split; [exact HB2|]. split; [exact Hl2|].
+        intros d. rewrite Hs2. unfold s1. rewrite (sum_denom_set _ k _ _ _ _ s eq_refl), Hg, Hdi. cbn [r_amt r_denom].
+        destruct (r_denom r =? d); lia.
+    + match type of E with (let '(_, _) := fill_recs _ _ _ _ _ ?x in _) = _ => set (s1 := x) in * end.
+      destruct (fill_recs debt coll prem D rest s1) as [s2 ch2] eqn:E2. injection E as <- <-.
+      assert (HB1 : LInvB c s1).
+      { split; [apply Forall_adel; exact Hnn|]. split; [apply Forall_adel; exact Hdn|].
+        apply inv_tot_del; [exact Htot|]. fold k. rewrite Hg. lia. }
+      destruct (IH s1 s2 ch2 E2 HB1) as (HB2 & Hl2 & Hs2). split; [exact HB2|]. split; [exact Hl2|].
+      intros d. rewrite Hs2. unfold s1. rewrite (sum_denom_del _ k _ _ _ s eq_refl), Hg, Hdi.
+      destruct (r_denom r =? d); lia.
+Qed.
+
+(* ---------------- one step ---------------- *)
+(* bookkeeping is preserved by EVERY successful step: no hypothesis on the operation *)
+Lemma lstep_invB c s o s' : LInvB c s -> lstep c s o = Ok s' -> LInvB c s'.
+Proof.
+  intros HB. pose proof HB as (Hnn & Hdn & Htot).
+  destruct o as [who coll debt prem denom amt|who coll debt prem|who coll debt prem denom amt|debt coll prem D whos spent ok];
+    cbn [lstep].
+  - (* Deposit *)
+    destruct ((coll =? 0) || (debt =? 0) || (amt <=? 0)) eqn:V; [discriminate|].
+    destruct (prem >? MAX_PREMIUM); [discriminate|].
+    destruct (denom_of c coll); [|discriminate]. destruct (denom_of c debt) as [dd|] eqn:Hdd; [|discriminate].
+    destruct (Z.eqb_spec dd denom) as [->|]; cbn [negb]; [|discriminate]. destruct (prem <? 0); [discriminate|].
+    set (k := mkK debt coll prem who).
+    assert (Hamt : 0 < amt) by lia. unfold lift.
+    destruct (aget keq k (recs s)) as [r|] eqn:Hg.
+    + destruct (Z.eqb_spec (r_denom r) denom) as [Ed|]; [|discriminate].
+      destruct (send (led s) who MOD denom amt) as [l'| |]; try discriminate. intros E. injection E as <-.
+      pose proof (aget_Forall_key keq keq_ok nonneg _ _ _ Hnn Hg) as Hr. unfold nonneg in Hr; cbn in Hr.
+      split; [apply Forall_aset; [unfold nonneg; cbn; lia|exact Hnn]|].
+      split; [apply Forall_aset; [exact Hdd|exact Hdn]|].
+      apply inv_tot_set; [exact Htot|]. fold k. rewrite Hg. cbn [r_amt]. lia.
+    + destruct (send (led s) who MOD denom amt) as [l'| |]; try discriminate. intros E. injection E as <-.
+      split; [apply Forall_aset; [unfold nonneg; cbn; lia|exact Hnn]|].
+      split; [apply Forall_aset; [exact Hdd|exact Hdn]|].
+      apply inv_tot_set; [exact Htot|]. fold k. rewrite Hg. cbn [r_amt]. lia.
+  - (* Cancel *)
+    destruct ((coll =? 0) || (debt =? 0)); [discriminate|]. apply cancel_invB. exact HB.
+  - (* Withdraw *)
+    destruct ((coll =? 0) || (debt =? 0) || (amt <=? 0)) eqn:V; [discriminate|].
+    destruct (prem <? 0); [discriminate|].
+    set (k := mkK debt coll prem who).
+    destruct (aget keq k (recs s)) as [r|] eqn:Hg; [|discriminate].
+    destruct (Z.eqb_spec denom (r_denom r)) as [->|]; cbn [negb]; [|discriminate].
+    destruct (Z.gtb_spec amt (r_amt r)) as [|Hle]; [discriminate|].
+    destruct (Z.eqb_spec amt (r_amt r)) as [Ea|Na]; [apply cancel_invB; exact HB|].
+    pose proof (aget_Forall_key keq keq_ok (denom_ok c) _ _ _ Hdn Hg) as Hd. unfold denom_ok in Hd; cbn in Hd.
+    match goal with |- match ?X with _ => _ end = _ -> _ => destruct X as [l'| |]; try discriminate end.
+    intros E. injection E as <-.
+    split; [apply Forall_aset; [unfold nonneg; cbn; lia|exact Hnn]|].
+    split; [apply Forall_aset; [exact Hd|exact Hdn]|].
+    apply inv_tot_set; [exact Htot|]. fold k. rewrite Hg. cbn [r_amt]. lia.
+  - (* AutoFill *)
+    destruct ok; cbn [negb]; [|discriminate].
+    destruct (fill_recs debt coll prem D whos s) as [s1 ch] eqn:E1.
+    destruct (fill_recs_spec c _ _ _ _ _ _ _ _ E1 HB) as (HB1 & _ & _).
+    destruct (denom_of c debt) as [dd|]; [|intros E; injection E as <-; exact HB1].
+    unfold lift. destruct (burn_from (led s1) MOD dd spent) as [l'| |]; try discriminate.
+    intros E. injection E as <-. exact HB1.
+Qed.
+
+(* custody is preserved by the steps of the environment described by [env_ok] *)
+Lemma lstep_invC c l0 s o s' :
+  fee_wf c -> LInvB c s -> LInvC l0 s -> env_ok s o -> lstep c s o = Ok s' -> LInvC l0 s'.
+Proof.
+  intros Hfw HB HC (Hw & Hfe). pose proof HB as (Hnn & Hdn & Htot).
+  destruct o as [who coll debt prem denom amt|who coll debt prem|who coll debt prem denom amt|debt coll prem D whos spent ok];
+    cbn [lstep who_of fill_env] in *.
   - (* Deposit *)
     destruct ((coll =? 0) || (debt =? 0) || (amt <=? 0)) eqn:V; [discriminate|].
     destruct (prem >? MAX_PREMIUM); [discriminate|].
     destruct (denom_of c coll); [|discriminate]. destruct (denom_of c debt) as [dd|]; [|discriminate].
     destruct (negb (dd =? denom)); [discriminate|]. destruct (prem <? 0); [discriminate|].
     set (k := mkK debt coll prem who).
-    assert (Hamt : 0 < amt) by lia.
+    assert (Hamt : 0 < amt) by lia. unfold lift.
     destruct (aget keq k (recs s)) as [r|] eqn:Hg.
-    + destruct (Z.eqb_spec (r_denom r) denom) as [Ed|]; [|discriminate]. unfold lift.
+    + destruct (Z.eqb_spec (r_denom r) denom) as [Ed|]; [|discriminate].
       destruct (send (led s) who MOD denom amt) as [l'| |] eqn:S; try discriminate.
       apply send_spec in S. destruct S as (_ & _ & _ & S). intros E. injection E as <-.
-      destruct (aget_Forall keq nonneg k r (recs s) Hnn Hg) as [k' Hr]. unfold nonneg in Hr; cbn in Hr.
-      split; [apply Forall_aset; [unfold nonneg; cbn; lia|exact Hnn]|]. split.
-      * intros m. rewrite tot_aset. unfold sum_market; cbn [recs]. rewrite (asum_aset keq keq_ok), Hg.
-        fold (sum_market m s). rewrite <- Htot. change (market k) with (debt, coll); cbn [r_amt]. rewrite (meq_sym m).
-        destruct (meq (debt, coll) m) eqn:E; [apply meq_ok in E; subst m|]; lia.
-      * intros d. unfold sum_denom; cbn [recs led]. rewrite (asum_aset keq keq_ok), Hg. fold (sum_denom d s).
-        specialize (Hcus d). rewrite S. cbn [r_amt r_denom]. unfold MOD in *. eqb_cases; lia.
-    + unfold lift. destruct (send (led s) who MOD denom amt) as [l'| |] eqn:S; try discriminate.
+      intros d. rewrite (sum_denom_set _ k _ _ _ _ s eq_refl), Hg. specialize (HC d). cbn [led r_amt r_denom].
+      rewrite S. unfold MOD in *. eqb_cases; lia.
+    + destruct (send (led s) who MOD denom amt) as [l'| |] eqn:S; try discriminate.
       apply send_spec in S. destruct S as (_ & _ & _ & S). intros E. injection E as <-.
-      split; [apply Forall_aset; [unfold nonneg; cbn; lia|exact Hnn]|]. split.
-      * intros m. rewrite tot_aset. unfold sum_market; cbn [recs]. rewrite (asum_aset keq keq_ok), Hg.
-        fold (sum_market m s). rewrite <- Htot. change (market k) with (debt, coll); cbn [r_amt]. rewrite (meq_sym m).
-        destruct (meq (debt, coll) m) eqn:E; [apply meq_ok in E; subst m|]; lia.
-      * intros d. unfold sum_denom; cbn [recs led]. rewrite (asum_aset keq keq_ok), Hg. fold (sum_denom d s).
-        specialize (Hcus d). rewrite S. cbn [r_amt r_denom]. unfold MOD in *. eqb_cases; lia.
+      intros d. rewrite (sum_denom_set _ k _ _ _ _ s eq_refl), Hg. specialize (HC d). cbn [led r_amt r_denom].
+      rewrite S. unfold MOD in *. eqb_cases; lia.
   - (* Cancel *)
-    destruct ((coll =? 0) || (debt =? 0)); [discriminate|].
-    intros C. exact (proj1 (cancel_spec c l0 s who coll debt prem s' Hfw HI Hw C)).
-  - (* Withdraw, outside F1 *)
+    destruct ((coll =? 0) || (debt =? 0)); [discriminate|]. apply cancel_invC; assumption.
+  - (* Withdraw *)
     destruct ((coll =? 0) || (debt =? 0) || (amt <=? 0)) eqn:V; [discriminate|].
-    destruct (prem <? 0) eqn:Hp; [discriminate|].
-    set (k := mkK debt coll prem who) in *.
+    destruct (prem <? 0); [discriminate|].
+    set (k := mkK debt coll prem who).
     destruct (aget keq k (recs s)) as [r|] eqn:Hg; [|discriminate].
-    destruct (Z.eqb_spec amt (r_amt r)) as [Ea|Na].
-    + intros C. exact (proj1 (cancel_spec c l0 s who coll debt prem s' Hfw HI Hw C)).
-    + assert (Hle : amt < r_amt r /\ denom = r_denom r /\ 0 < amt) by (cbn [negb] in K1; lia).
-      destruct Hle as (Hle & -> & Hamt).
-      destruct (Z.gtb_spec (r_amt r) 0) as [_|]; [|lia]. unfold lift.
-      destruct (fee_of (withdrawal_fee c) amt) as [fee|] eqn:Hf; [|discriminate].
-      pose proof (fee_bounds _ _ _ Hf (proj2 Hfw) ltac:(lia)) as Hfee.
-      destruct (send (led s) MOD who (r_denom r) (amt - fee)) as [l'| |] eqn:S; try discriminate.
-      apply send_spec in S. destruct S as (_ & _ & _ & S). intros E. injection E as <-.
-      split; [apply Forall_aset; [unfold nonneg; cbn; lia|exact Hnn]|]. split.
-      * intros m. rewrite tot_aset. unfold sum_market; cbn [recs]. rewrite (asum_aset keq keq_ok), Hg.
-        fold (sum_market m s). rewrite <- Htot. change (market k) with (debt, coll); cbn [r_amt]. rewrite (meq_sym m).
-        destruct (meq (debt, coll) m) eqn:E; [apply meq_ok in E; subst m|]; lia.
-      * intros d. unfold sum_denom; cbn [recs led]. rewrite (asum_aset keq keq_ok), Hg. fold (sum_denom d s).
-        specialize (Hcus d). rewrite S. cbn [r_amt r_denom]. unfold MOD in *. eqb_cases; lia.
-  - (* AutoFill, outside F2 *)
-    destruct (aget keq k (recs s)) as [r|] eqn:Hg; [|intros E; injection E as <-; exact HI].
-    destruct ok; cbn [negb andb] in *; [|discriminate]. unfold lift.
-    destruct (burn_from (led s) MOD (r_denom r) spent) as [l'| |] eqn:S; try discriminate.
-    apply burn_spec in S. destruct S as (Hsp & S).
-    destruct (aget_Forall keq nonneg k r (recs s) Hnn Hg) as [k' Hr]. unfold nonneg in Hr; cbn in Hr.
-    destruct (Z.geb_spec (r_amt r) D) as [Hge|Hlt].
-    + destruct (Z.eqb_spec (r_amt r) D) as [|Hne]; [discriminate|].
-      intros E. injection E as <-.
-      split; [apply Forall_aset; [unfold nonneg; cbn; lia|exact Hnn]|]. split.
-      * intros m. rewrite tot_aset. unfold sum_market; cbn [recs]. rewrite (asum_aset keq keq_ok), Hg.
-        fold (sum_market m s). rewrite <- Htot. cbn [r_amt]. rewrite (meq_sym m).
-        destruct (meq (market k) m) eqn:E; [apply meq_ok in E; subst m|]; lia.
-      * intros d. unfold sum_denom; cbn [recs led]. rewrite (asum_aset keq keq_ok), Hg. fold (sum_denom d s).
-        specialize (Hcus d). rewrite S. cbn [r_amt r_denom]. unfold MOD in *. eqb_cases; lia.
-    + intros E. injection E as <-.
-      split; [apply Forall_adel; exact Hnn|]. split.
-      * intros m. rewrite tot_aset. unfold sum_market; cbn [recs]. rewrite (asum_adel keq keq_ok), Hg.
-        fold (sum_market m s). rewrite <- Htot. rewrite (meq_sym m).
-        destruct (meq (market k) m) eqn:E; [apply meq_ok in E; subst m|]; lia.
-      * intros d. unfold sum_denom; cbn [recs led]. rewrite (asum_adel keq keq_ok), Hg. fold (sum_denom d s).
-        specialize (Hcus d). rewrite S. unfold MOD in *. eqb_cases; lia.
+    destruct (Z.eqb_spec denom (r_denom r)) as [->|]; cbn [negb]; [|discriminate].
+    destruct (Z.gtb_spec amt (r_amt r)) as [|Hle]; [discriminate|].
+    destruct (Z.eqb_spec amt (r_amt r)) as [Ea|Na]; [apply cancel_invC; assumption|].
+    assert (Hamt : 0 < amt) by lia.
+    destruct (Z.gtb_spec (r_amt r) 0) as [_|]; [|lia]. unfold lift.
+    destruct (fee_of (withdrawal_fee c) amt) as [fee|] eqn:Hf; [|discriminate].
+    pose proof (fee_bounds _ _ _ Hf (proj2 Hfw) ltac:(lia)) as Hfee.
+    destruct (send (led s) MOD who (r_denom r) (amt - fee)) as [l'| |] eqn:S; try discriminate.
+    apply send_spec in S. destruct S as (_ & _ & _ & S). intros E. injection E as <-.
+    intros d. rewrite (sum_denom_set _ k _ _ _ _ s eq_refl), Hg. specialize (HC d). cbn [led r_amt r_denom].
+    rewrite S. unfold MOD in *. eqb_cases; lia.
+  - (* AutoFill *)
+    destruct ok; cbn [negb]; [|discriminate].
+    destruct (fill_recs debt coll prem D whos s) as [s1 ch] eqn:E1. cbn [snd] in Hfe.
+    destruct (fill_recs_spec c _ _ _ _ _ _ _ _ E1 HB) as (_ & Hl1 & Hs1).
+    unfold denom_is in Hs1.
+    destruct (denom_of c debt) as [dd|].
+    + unfold lift. destruct (burn_from (led s1) MOD dd spent) as [l'| |] eqn:S; try discriminate.
+      apply burn_spec in S. destruct S as (Hsp & S). intros E. injection E as <-.
+      intros d. specialize (HC d). specialize (Hs1 d). unfold sum_denom in *. cbn [recs led] in *.
+      rewrite S, Hl1. unfold MOD in *. eqb_cases; lia.
+    + intros E. injection E as <-. intros d. specialize (HC d). specialize (Hs1 d).
+      rewrite Hl1. lia.
 Qed.
 
-(* histories that stay outside the known-finding classes *)
-Fixpoint clean_run (c : cfg) (s : lstate) (ops : list lop) : Prop :=
+Lemma lstep_inv c l0 s o s' :
+  fee_wf c -> LInv c l0 s -> env_ok s o -> lstep c s o = Ok s' -> LInv c l0 s'.
+Proof.
+  intros Hfw (HB & HC) He E. split; [exact (lstep_invB c s o s' HB E)|exact (lstep_invC c l0 s o s' Hfw HB HC He E)].
+Qed.
+
+(* ---------------- histories ---------------- *)
+Theorem lrun_invB c ops : forall s, LInvB c s -> LInvB c (lrun c s ops).
+Proof.
+  induction ops as [|o r IH]; intros s HB; [exact HB|].
+  cbn [lrun fold_left]. apply IH. unfold lapply.
+  destruct (lstep c s o) as [s'| |] eqn:E; auto. exact (lstep_invB c s o s' HB E).
+Qed.
+
+(* the environment hypothesis along a history *)
+Fixpoint env_run (c : cfg) (s : lstate) (ops : list lop) : Prop :=
   match ops with
   | [] => True
-  | o :: r => clean s o /\ clean_run c (lapply c s o) r
+  | o :: r => env_ok s o /\ env_run c (lapply c s o) r
   end.
 
 Theorem lrun_inv c l0 ops : forall s,
-  fee_wf c -> LInv l0 s -> clean_run c s ops -> LInv l0 (lrun c s ops).
+  fee_wf c -> LInv c l0 s -> env_run c s ops -> LInv c l0 (lrun c s ops).
 Proof.
   induction ops as [|o r IH]; intros s Hfw HI Hc; [exact HI|].
   destruct Hc as [Hco Hcr]. cbn [lrun fold_left]. apply IH; auto.
@@ -273,12 +440,23 @@ Proof.
   exact (lstep_inv c l0 s o s' Hfw HI Hco E).
 Qed.
 
-(* the invariant implies the executable predicates the runner evaluates *)
-Lemma linv_holds l0 s : LInv l0 s ->
+(* histories of messages only: the environment hypothesis is just "sent by bidder accounts" *)
+Definition is_msg (o : lop) : Prop :=
+  match o with AutoFill _ _ _ _ _ _ _ => False | _ => 0 <= who_of o end.
+
+Lemma env_run_msgs c ops : forall s, Forall is_msg ops -> env_run c s ops.
+Proof.
+  induction ops as [|o r IH]; intros s H; [exact I|]. inversion H as [|? ? Ho Hr]; subst.
+  split; [|apply IH; exact Hr]. unfold env_ok.
+  destruct o; cbn [is_msg who_of fill_env] in *; try contradiction; (split; [exact Ho|exact I]).
+Qed.
+
+(* the invariants imply the executable predicates the runner evaluates *)
+Lemma linv_holds c l0 s : LInv c l0 s ->
   (forall m, holds_C11_limit_total s m = true) /\
   (forall d, holds_C11_limit_custody s d (l0 MOD d) = true).
 Proof.
-  intros (Hnn & Htot & Hcus). split.
+  intros ((Hnn & _ & Htot) & Hcus). split.
   - intros m. unfold holds_C11_limit_total. rewrite Htot. apply Z.eqb_refl.
   - intros d. unfold holds_C11_limit_custody. specialize (Hcus d).
     assert (nonneg_denom d s = true).
@@ -287,34 +465,35 @@ Proof.
     lia.
 Qed.
 
-(* own deposit only *)
-Theorem withdraw_own c l0 s who coll debt prem denom amt s' :
-  fee_wf c -> LInv l0 s -> 0 <= who ->
-  kf_C11_1 s (Withdraw who coll debt prem denom amt) = false ->
+(* ---------------- own deposit only ---------------- *)
+Theorem withdraw_own c s who coll debt prem denom amt s' :
+  fee_wf c -> LInvB c s ->
   lstep c s (Withdraw who coll debt prem denom amt) = Ok s' ->
-  exists r x fee, aget keq (mkK debt coll prem who) (recs s) = Some r /\
-    0 <= x <= r_amt r /\ 0 <= fee <= x /\ x = amt /\
+  exists r fee, aget keq (mkK debt coll prem who) (recs s) = Some r /\
+    denom = r_denom r /\ 0 < amt <= r_amt r /\ 0 <= fee <= amt /\
     (forall acct d, acct <> MOD ->
-       led s' acct d = led s acct d + (if (acct =? who) && (d =? r_denom r) then x - fee else 0)) /\
-    tot (debt, coll) s' = tot (debt, coll) s - x.
+       led s' acct d = led s acct d + (if (acct =? who) && (d =? r_denom r) then amt - fee else 0)) /\
+    tot (debt, coll) s' = tot (debt, coll) s - amt.
 Proof.
-  intros Hfw HI Hw K1. pose proof HI as (Hnn & Htot & Hcus). cbn [lstep kf_C11_1] in *.
+  intros Hfw HB. pose proof HB as (Hnn & Hdn & Htot). cbn [lstep].
   destruct ((coll =? 0) || (debt =? 0) || (amt <=? 0)) eqn:V; [discriminate|].
   destruct (prem <? 0) eqn:Hp; [discriminate|].
   set (k := mkK debt coll prem who) in *.
   destruct (aget keq k (recs s)) as [r|] eqn:Hg; [|discriminate].
+  destruct (Z.eqb_spec denom (r_denom r)) as [->|]; cbn [negb]; [|discriminate].
+  destruct (Z.gtb_spec amt (r_amt r)) as [|Hle]; [discriminate|].
+  assert (Hamt : 0 < amt) by lia.
   destruct (Z.eqb_spec amt (r_amt r)) as [Ea|Na].
-  - intros C. destruct (cancel_spec c l0 s who coll debt prem s' Hfw HI Hw C) as (_ & r0 & fee & Hg0 & Hfee & Hl & Ht).
+  - intros C. destruct (cancel_spec c s who coll debt prem s' Hfw HB C) as (r0 & fee & Hg0 & Hfee & Hl & _ & _ & Ht).
     fold k in Hg0. rewrite Hg in Hg0. injection Hg0 as <-.
-    exists r, (r_amt r), fee. repeat split; try lia; auto.
-  - assert (Hle : amt < r_amt r /\ denom = r_denom r /\ 0 < amt) by (cbn [negb] in K1; lia).
-    destruct Hle as (Hle & -> & Hamt).
-    destruct (Z.gtb_spec (r_amt r) 0) as [_|]; [|lia]. unfold lift.
+    exists r, fee. repeat split; try lia; auto.
+    intros acct d Ha. rewrite Hl. unfold MOD in *. eqb_cases; lia.
+  - destruct (Z.gtb_spec (r_amt r) 0) as [_|]; [|lia]. unfold lift.
     destruct (fee_of (withdrawal_fee c) amt) as [fee|] eqn:Hf; [|discriminate].
     pose proof (fee_bounds _ _ _ Hf (proj2 Hfw) ltac:(lia)) as Hfee.
     destruct (send (led s) MOD who (r_denom r) (amt - fee)) as [l'| |] eqn:S; try discriminate.
     apply send_spec in S. destruct S as (_ & _ & _ & S). intros E. injection E as <-.
-    exists r, amt, fee. repeat split; try lia.
+    exists r, fee. repeat split; try lia.
     + intros acct d Ha. cbn [led]. rewrite S. unfold MOD in *. eqb_cases; lia.
     + rewrite tot_aset. rewrite (proj2 (meq_ok _ _) eq_refl). reflexivity.
 Qed.
